@@ -1,4 +1,23 @@
 import BU.Properties.C03
+import BU.Properties.C03_Gen
 #print axioms C03.legacy_eq
 #print axioms C03.single_refuses
 #print axioms C03.legacy_ignores_scriptsigs
+#print axioms C03Gen.listSet_map
+#print axioms C03Gen.blank_map
+#print axioms C03Gen.set_code
+#print axioms C03Gen.zero_fold_get
+#print axioms C03Gen.zero_fold
+#print axioms C03Gen.zero_fold_length
+#print axioms C03Gen.set_eq_modify
+#print axioms C03Gen.zero_loop
+#print axioms C03Gen.pad_loop
+#print axioms C03Gen.gen_transaction_to_bytes_false
+#print axioms C03Gen.inScript_small
+#print axioms C03Gen.blankish_zero
+#print axioms C03Gen.zero_length
+#print axioms C03Gen.ser_eq
+#print axioms C03Gen.bne_cast0
+#print axioms C03Gen.gen_legacy_digest
+#print axioms C03Gen.gen_legacy_digest_eq_core
+#print axioms C03Gen.gen_single_refuses
